@@ -14,6 +14,11 @@ func init() {
 		&slip.FuncDoc{
 			Name: "list*",
 			Args: []*slip.DocArg{
+				{
+					Name: "object",
+					Type: "object",
+					Text: "The first object.",
+				},
 				{Name: "&rest"},
 				{Name: "objects", Type: "object"},
 			},
